@@ -100,6 +100,8 @@ func checkC02(p *load.Program, r *kit.Report) {
 	r.Rule("GUARD-DOM", "under disableDifficulty=false every effect of ProcessHeader is dominated by header.WorkIsValid()'s true edge, and every path through height >= 556767 passes bits == header.Bits with bits = ConvertToBits(previousBranch.Target(height), MaxBits), height = previousHeight+1, previousBranch = Find(header.PrevBlock)", 4)
 	r.Rule("CONST-TABLE", "DAA constants by role: activation 556767; medians at height-1 and height-145 over 3 samples; clamps 72*600 / 288*600; multiplier 600; work difference last-first; cap bitcoin.MaxWork", 6)
 	r.Rule("TYPE-RULE", "the time span is a subtraction in a signed 64-bit type", 1)
+	r.Rule("RETENTION-DEPTH", "the depth of headers that clean (prune) and Load keep in memory is at least MaxBranchDepth + (the number of headers below a height that Target reads) − 1: the required bits of a header on the deepest admissible fork are computed from memory only", 3)
+	checkRetentionDepth(p, r, "RETENTION-DEPTH")
 	r.Rule("MEDIAN", "the median of three is chosen by compare-exchanges (0,2),(0,1),(1,2) on strict >, samples stored oldest-first, middle element returned; no library sort is reachable for count == 3", 4)
 	r.Rule("DEP-INDEX", "bitcoin.ConvertToDifficulty indexes b[1] with only length >= 1 established (recomputed from the dependency source); every call path from ProcessHeader must be behind a sanity guard on header.Bits>>24", 3)
 	r.Rule("DEP-FACT", "wire.BlockHeader.WorkIsValid (dependency body) is BlockHash().Value().Cmp(ConvertToDifficulty(h.Bits)) <= 0: the hash does not exceed the target its own bits encode", 1)
@@ -1034,4 +1036,122 @@ func checkWorkIsValid(p *load.Program, r *kit.Report) {
 		}
 	}
 	r.Check(bad == "" && n > 0, "DEP-FACT", "WirePkg.BlockHeader.WorkIsValid", "pkg/wire/blockheader.go", "hash value <= ConvertToDifficulty(own bits)", bad)
+}
+
+// checkRetentionDepth: the difficulty rule for height h reads the headers h-1 … h-(window) of the
+// header's own branch from memory (Target → MedianTimeAndWork → AtHeight; nothing is re-read from
+// the files), and a new branch is admitted down to MaxBranchDepth below the tip. So the depth that
+// clean (prune) and Load keep in memory must be at least MaxBranchDepth + window − 1, or a valid
+// header is refused with "Header Data Not Found" instead of being decided on its proof of work.
+func checkRetentionDepth(p *load.Program, r *kit.Report, rule string) {
+	tf := fn(p, r, rule, H, "Branch.Target")
+	if tf == nil {
+		return
+	}
+	// window: the lowest height Target reads, relative to its height parameter
+	lin := kit.NewLin(tf)
+	var hp ssa.Value
+	for _, prm := range tf.Params {
+		if prm.Name() == "height" {
+			hp = prm
+		}
+	}
+	window := int64(0)
+	nCalls := 0
+	for _, c := range kit.CallsTo(tf, H+".Branch.MedianTimeAndWork") {
+		args := c.Common().Args
+		if hp == nil || len(args) < 4 {
+			continue
+		}
+		d := lin.Of(hp).Sub(lin.Of(args[2]))
+		k, ok1 := d.IsConst()
+		cnt, ok2 := kit.ConstInt(args[3])
+		if !ok1 || !ok2 {
+			r.Unknown(rule, "Target/window", posOf(p, c), "MedianTimeAndWork(%s, %s): not height-k with constant count", lin.Of(args[2]), describe(args[3]))
+			return
+		}
+		nCalls++
+		if k+cnt-1 > window {
+			window = k + cnt - 1
+		}
+	}
+	if nCalls < 2 || window <= 0 {
+		r.Unknown(rule, "Target/window", "-", "expected two MedianTimeAndWork calls in Target, found %d", nCalls)
+		return
+	}
+	r.OK(rule, "Target/window", posOf(p, tf.Blocks[0].Instrs[0]), "Target(height) reads down to height-%d", window)
+	// default MaxBranchDepth
+	mbdF := p.Field(H, "Config", "MaxBranchDepth")
+	def := int64(-1)
+	if dc := p.Func(H, "DefaultConfig"); dc != nil && mbdF != nil {
+		for _, w := range kit.DirectWrites(dc) {
+			if w.Field == mbdF {
+				if k, ok := kit.ConstInt(w.Val); ok {
+					def = k
+				}
+			}
+		}
+	}
+	if def < 0 {
+		r.Unknown(rule, "DefaultConfig/MaxBranchDepth", "-", "default MaxBranchDepth not found")
+		return
+	}
+	sites := []struct{ caller, callee string }{{"Repository.clean", "Repository.prune"}, {"Repository.Load", "Repository.load"}}
+	for _, s := range sites {
+		f := fn(p, r, rule, H, s.caller)
+		if f == nil {
+			continue
+		}
+		calls := kit.CallsTo(f, H+"."+s.callee)
+		if len(calls) == 0 {
+			r.Unknown(rule, s.caller+"/depth", "-", "no call of %s", s.callee)
+			continue
+		}
+		for _, c := range calls {
+			args := c.Common().Args
+			depth := args[len(args)-1]
+			key := s.caller + "/depth→" + s.callee
+			if k, ok := kit.ConstInt(kit.Strip(depth)); ok {
+				need := def + window - 1
+				r.Check(k >= need, rule, key, posOf(p, c), fmt.Sprintf("keeps %d headers; MaxBranchDepth %d + window %d − 1 = %d", k, def, window, need),
+					fmt.Sprintf("only %d headers are kept in memory but a header on a fork %d below the tip needs the %d headers below it: %d", k, def, window, need))
+				continue
+			}
+			// computed depth: evaluate it for representative MaxBranchDepth values
+			var from ssa.Value
+			kit.AllInstrs(f, func(in ssa.Instruction) {
+				if u, ok := in.(*ssa.UnOp); ok && u.Op == token.MUL && from == nil {
+					if fa, ok := u.X.(*ssa.FieldAddr); ok {
+						if fl, _ := kit.FieldOfAddr(fa); fl == mbdF {
+							from = u
+						}
+					}
+				}
+			})
+			if from == nil {
+				r.Unknown(rule, key, posOf(p, c), "the depth is neither a constant nor computed from config.MaxBranchDepth in %s", s.caller)
+				continue
+			}
+			bad := ""
+			for _, m := range []int64{0, def, 1000} {
+				outs, why := evalSlice(from, m, c.(ssa.Instruction), depth)
+				if why != "" {
+					bad = "depth not evaluable: " + why
+					break
+				}
+				for _, o := range outs {
+					if o == evalReturned {
+						continue
+					}
+					if o < m+window-1 {
+						bad = fmt.Sprintf("with MaxBranchDepth %d only %d headers are kept in memory, but a header on a fork %d below the tip needs the %d headers below it (%d): it is refused with Header Data Not Found instead of being decided on its proof of work", m, o, m, window, m+window-1)
+					}
+				}
+				if bad != "" {
+					break
+				}
+			}
+			r.Check(bad == "", rule, key, posOf(p, c), "computed depth ≥ MaxBranchDepth + window − 1 for MaxBranchDepth 0, default, 1000", bad)
+		}
+	}
 }
